@@ -27,6 +27,8 @@ typedef struct {
 
 #define M(x) (1u << (x))
 static const scen_t SCN[] = {
+    /* H: minimal two-writer race on stream 0's non-empty queue (owner and a foreign thread push one task each) */
+    { "push_push", 2, 2, 0, 2, 0, { { SCHED(0, 0, 1, 50) }, { SCHED(0, 0, 1, 60) } }, 0, 0 },     /* lower than the pre-filled 100,101: llp takes its detach-merge-reattach path */
     /* A: a ring arrives on stream 0 while the neighbour looks for work */
     { "sched_vs_steal", 2, 2, 0, 0, 0, { { SCHED(0, 0, 2, 3, 7), SEL(0) }, { SEL(1), SEL(1) } }, 0, 0 },
     /* B: foreign push (distance 1) onto stream 0 while its owner selects and schedules */
@@ -41,8 +43,6 @@ static const scen_t SCN[] = {
     { "three_comm", 3, 3, 0, 0, 0, { { SEL(0), SEL(0) }, { SCHED(1, 0, 2, 3, 8), SEL(1) }, { SCHED(0, 0, 1, 6) } }, 0, 0 },
     /* G: three streams all active: ring on 2, foreign push from 1 onto 0, everybody selects */
     { "three_streams", 3, 3, 0, 1, 0, { { SEL(0), SEL(0) }, { SCHED(0, 1, 1, 7), SEL(1) }, { SCHED(2, 0, 2, 2, 9), SEL(2) } }, 0, 0 },
-    /* H: minimal two-writer race on stream 0's non-empty queue (owner and a foreign thread push one task each) */
-    { "push_push", 2, 2, 0, 2, 0, { { SCHED(0, 0, 1, 105) }, { SCHED(0, 0, 1, 106) } }, 0, 0 },
 };
 #define NSCN ((int)(sizeof(SCN) / sizeof(SCN[0])))
 
